@@ -162,6 +162,28 @@ func (c *Ctx) Proc(rule string) *Proc {
 	}) {
 		p.Verify = ci.Common().StaticCallee()
 	}
+	// a method of the session that only forwards to the check proper (`g.valid(share, vec)` = verify(g.id, g.threshold, share,
+	// vec)): the check proper is the anchor; the forwarder is seen through by the boolean-helper summaries
+	for hop := 0; hop < 2 && p.Verify != nil; hop++ {
+		var inner *ssa.Function
+		rets := an.Returns(p.Verify)
+		for _, ret := range rets {
+			call, ok := an.Result(ret, 0).(*ssa.Call)
+			if !ok || call.Call.IsInvoke() || call.Call.StaticCallee() == nil || !prog.InModule(call.Call.StaticCallee()) || call.Call.StaticCallee().Blocks == nil {
+				inner = nil
+				break
+			}
+			if inner != nil && inner != call.Call.StaticCallee() {
+				inner = nil
+				break
+			}
+			inner = call.Call.StaticCallee()
+		}
+		if inner == nil || len(rets) == 0 {
+			break
+		}
+		p.Verify = inner
+	}
 	if p.Verify == nil {
 		c.R.Anchor(rule, "process:verify", "no contribution check found in OnContribute")
 		return p
